@@ -66,3 +66,21 @@ Definition xdiv (x y : xfe) : option xfe :=
   match xinverse y with None => None | Some yi => Some (xmul x yi) end.
 Definition xbatch_inversion : list xfe -> option (list xfe) :=
   batch_inversion xfe xone xmul (fun x => xeqb x xzero) xinverse.
+
+(* ---- further public API *)
+Definition xsum (l : list xfe) : xfe := match l with [] => xzero | x :: r => fold_left xadd r x end.
+Definition xnew_const (b : Z) : xfe := xlift b.
+(* TryFrom<&[BFieldElement]>: exactly three elements *)
+Definition xtry_from_slice (l : list Z) : option xfe :=
+  match l with [a; b; c] => Some (a, b, c) | _ => None end.
+(* increment / decrement of one coefficient; an index >= 3 panics *)
+Definition xincrement (x : xfe) (i : Z) : option xfe :=
+  let '(a, b, c) := x in
+  if i =? 0 then Some (bfe_add a bfe_one, b, c) else if i =? 1 then Some (a, bfe_add b bfe_one, c)
+  else if i =? 2 then Some (a, b, bfe_add c bfe_one) else None.
+Definition xdecrement (x : xfe) (i : Z) : option xfe :=
+  let '(a, b, c) := x in
+  if i =? 0 then Some (bfe_sub a bfe_one, b, c) else if i =? 1 then Some (a, bfe_sub b bfe_one, c)
+  else if i =? 2 then Some (a, b, bfe_sub c bfe_one) else None.
+Definition xroot (n : Z) : option xfe :=
+  match primitive_root_of_unity n with Some r => Some (xlift r) | None => None end.
